@@ -99,7 +99,12 @@ func sectionAfterLabel(x *OracleCtx, out interp.Value, name interp.Value) ([]int
 	return sec, count
 }
 
+// c09EmptyMiddle: three-line texts whose middle source line is the empty
+// literal "" (it still is one directive).
+var c09EmptyMiddle bool
+
 func c09Case(origin, typ string, nlines int, prefixKnown string) *Case {
+	emptyMiddle := c09EmptyMiddle && nlines == 3
 	atoms := &AtomTable{Coded: true}
 	var lits []*StrLit
 	var lineVals []func() interp.Value
@@ -119,6 +124,9 @@ func c09Case(origin, typ string, nlines int, prefixKnown string) *Case {
 		a := atoms.New(ClsLine, fmt.Sprintf("line%d", i), "")
 		a.NonEmpty = i < nlines-1
 		sl := &StrLit{Parts: []Tok{A(a)}}
+		if emptyMiddle && i == 1 {
+			sl = &StrLit{}
+		}
 		if prefixKnown != "" && i == nlines-1 {
 			// last line written with the terminator already in place
 			sl.Parts = append(sl.Parts, L(prefixKnown))
@@ -182,7 +190,11 @@ func c09Case(origin, typ string, nlines int, prefixKnown string) *Case {
 		swKeys, swVals = []Tok{A(key)}, []Tok{A(val)}
 	}
 	variants := []Variant{{Name: "opt", Opt: CompileOpts{Optimize: true, SwKeys: swKeys, SwVals: swVals}}}
-	cs := &Case{Name: fmt.Sprintf("c09/%s/type=%s/lines=%d/pre=%q", origin, typ, nlines, prefixKnown), Prog: prog, Variants: variants, NonTrivial: true,
+	nm := fmt.Sprintf("c09/%s/type=%s/lines=%d/pre=%q", origin, typ, nlines, prefixKnown)
+	if emptyMiddle {
+		nm += "/empty-middle-line"
+	}
+	cs := &Case{Name: nm, Prog: prog, Variants: variants, NonTrivial: true,
 		Shape: c09Shape{Origin: origin, Type: typ, Lines: nlines}, MaxPaths: 64}
 	cs.Oracle = func(x *OracleCtx) *Violation {
 		res := x.Res["opt"]
@@ -252,6 +264,13 @@ func RunC09(env *Env, rep *Report) {
 	for _, first := range []bool{true, false} {
 		cases = append(cases, c09StatementAndInlineCase("braille", "", first), c09StatementAndInlineCase("", "braille", first), c09StatementAndInlineCase("", "", first), c09StatementAndInlineCase("ascii", "", first))
 	}
+	c09EmptyMiddle = true
+	for _, origin := range []string{"text", "inline"} {
+		for _, typ := range []string{"", "ascii"} {
+			cases = append(cases, c09Case(origin, typ, 3, ""))
+		}
+	}
+	c09EmptyMiddle = false
 	cases = append(cases, c09CRLFCase())
 	cases = append(cases, c09PairCase("", "braille"), c09PairCase("braille", ""), c09PairCase("", "custom"), c09PairCase("ascii", "custom"))
 	rep.Technique = "symbolic execution of the real text parsing, terminator logic and text emission (go/ssa) with symbolic string contents; 'already terminated' decided by the SMT string theory (z3 seq)"
